@@ -1,31 +1,29 @@
 (* Property C11 — an operation that raises leaves the database as it was, and still usable.
    DB.v places every exception at the statement where database.py raises (a non-Point inside
    insert_multiple, statically invalid update arguments, an update callable that raises or
-   returns an invalid value, an invalid select key).  For storage without in-place mutation
-   (CSVStorage: inplace = false): whenever an operation's outcome is ORaise the stored rows are
-   what they were (insert_multiple: plus the points before the offending element), and the
-   state invariant still holds — so every later operation behaves as Prop_C01/C02/C03/C06 say.
-   MemoryStorage (inplace = true) mutates stored objects during update: known finding F16,
-   the refuted statement is C11_memory_refuted. *)
+   returns an invalid value, an invalid select key).  Whenever an operation's outcome is ORaise
+   the stored rows are what they were (insert_multiple: plus the points before the offending
+   element) and the state invariant still holds — so every later operation behaves as
+   Prop_C01/C02/C03/C06 say.  For both storages: MemoryStorage restores the objects an update
+   changed in place when the update fails (repaired defect F16). *)
 From Coq Require Import List ZArith NArith Bool.
 From TF Require Import Base Query Index DB Spec proofs.IndexDefs proofs.RepP proofs.DBReadP proofs.DBRemoveP
      proofs.DBStepP proofs.DBRunP proofs.DBSpecP.
 Import ListNotations.
 
 Theorem C11_raise_is_noop : forall E C norm, (forall p, wf_point p -> wf_point (norm p)) ->
-  forall s o, Inv s -> wf_op E norm o -> snd (step E C norm false s o) = ORaise ->
-  let s' := fst (step E C norm false s o) in
+  forall s o, Inv s -> wf_op E norm o -> snd (step E C norm s o) = ORaise ->
+  let s' := fst (step E C norm s o) in
   Inv s' /\
   match o with
   | Insert ps m => st_rows s' = st_rows s ++ map (rename m) (prefix_points ps)
   | Handle name (HInsert ps) => st_rows s' = st_rows s ++ map (rename (Some name)) (prefix_points ps)
   | _ => st_rows s' = st_rows s
   end.
-Proof. exact (fun E C norm Hn s o HI Hw => raise_leaves_rows E C norm false Hn s o HI Hw eq_refl). Qed.
-(* whatever happens, the invariant survives every operation that is not a torn in-place update *)
-Theorem C11_still_usable : forall E C norm inplace, (forall p, wf_point p -> wf_point (norm p)) ->
-  forall s o, Inv s -> wf_op E norm o -> no_torn_update inplace o (snd (step E C norm inplace s o)) ->
-  Inv (fst (step E C norm inplace s o)).
+Proof. exact raise_leaves_rows. Qed.
+(* whatever happens, the invariant survives every operation *)
+Theorem C11_still_usable : forall E C norm, (forall p, wf_point p -> wf_point (norm p)) ->
+  forall s o, Inv s -> wf_op E norm o -> Inv (fst (step E C norm s o)).
 Proof. exact step_Inv. Qed.
 
 Print Assumptions C11_raise_is_noop.
